@@ -434,6 +434,19 @@ def tie_phase(rep, group):
     """regenerate coq/Gen/<group>/*.v from /repo/src (checks/gen_ties.py), build it and read Print Assumptions of its tie
     theorems.  Returns (ok, description); the numbers go into the evidence"""
     from . import gen_ties
+    if group in gen_ties.SLOW_GROUPS:
+        # a tie theorem too slow for the default build: regenerated and compiled directly (thorough tier)
+        rel = gen_ties.SLOW_GROUPS[group]()
+        rc, o, e = sh(["coqc", "-Q", ".", "V", "-w", "-notation-overridden,-deprecated-hint-without-locality,-deprecated-instance-without-locality,-ambiguous-paths", rel], cwd=COQ, timeout=7200)
+        src = open(os.path.join(COQ, rel)).read()
+        names = re.findall(r"(?m)^Theorem (\w+)", src)
+        closed = (o + e).count("Closed under the global context")
+        hygiene = re.findall(r"\b(Admitted|admit|Axiom|Parameter|Conjecture)\b", src)
+        ok = rc == 0 and closed == len(names) and not hygiene
+        rep.coverage.setdefault("regenerated_ties", {})[rel] = {"theorems": names, "discharged": closed if rc == 0 else 0, "translation_failed": False,
+                                                                "print_assumptions": {n: ("Closed under the global context" if ok else "not checked") for n in names}}
+        print("TIE %s: %s theorems=%d discharged=%d (compiled directly)" % (rep.prop, rel, len(names), closed if rc == 0 else 0), flush=True)
+        return (True, "") if ok else (False, "%s no longer checks: %s" % (rel, (o + e)[-600:].replace("\n", " | ")))
     rel = gen_ties.GROUPS[group]()
     d = os.path.dirname(rel)
     cr = coq_phase([d], rel)
